@@ -517,9 +517,28 @@ func (ds *dataset) insert() {
 
 // cond is a condition on the payload column v of the loaded relation.
 type cond struct {
-	form string // args | map | scope | scope-order | scope-unscoped | join-on
+	form string // args | map | scope | scope-order | scope-unscoped | join-on | scope-or | scope-or-group | args-or
 	op   string // ">=", "<", "="
 	x    int64
+	// the *-or forms: a second alternative on v (v op x OR v op2 x2)
+	op2 string
+	x2  int64
+}
+
+// alt reports whether the condition is a disjunction of two alternatives.
+func (c *cond) alt() bool {
+	return c != nil && (c.form == "scope-or" || c.form == "scope-or-group" || c.form == "args-or")
+}
+
+func cmpV(v int64, op string, x int64) bool {
+	switch op {
+	case ">=":
+		return v >= x
+	case "<":
+		return v < x
+	default:
+		return v == x
+	}
 }
 
 // lifts reports whether the condition itself lifts the soft-delete scope of the relation it is
@@ -531,14 +550,7 @@ func (c *cond) ok(r *row) bool {
 		return true
 	}
 	v := r.vals["v"].(int64)
-	switch c.op {
-	case ">=":
-		return v >= c.x
-	case "<":
-		return v < c.x
-	default:
-		return v == c.x
-	}
+	return cmpV(v, c.op, c.x) || (c.alt() && cmpV(v, c.op2, c.x2))
 }
 
 func (ds *dataset) live(m *model, r *row) bool { return !(m.soft && r.deleted) }
